@@ -67,6 +67,16 @@ var (
 
 const c11Field = "f"
 
+// a key of the same name whose type accepts no scalar and no nil
+type c11Decoy struct{ X chan int }
+
+var (
+	c11DecoyCtor, _ = errdef.DefineField[c11Decoy](c11Field)
+	c11DecoyKey     = c11DecoyCtor.Key()
+	c11DecoyDef     = errdef.Define("c11", c11DecoyCtor(c11Decoy{}))
+	c11BareDef      = errdef.Define("c11")
+)
+
 func c11AddType[T any](id int, kind string) int {
 	rt := reflect.TypeFor[T]()
 	c11Types = append(c11Types, c11Type{ID: id, Kind: kind, RT: rt})
@@ -312,8 +322,8 @@ func runC11(d c11Desc) Case {
 	val := c11Value(d)
 	srcCoq, srcTxt, _ := c11Dval(val, true)
 
-	obs, obsTxt := "OWeird", "?"
-	func() {
+	observe := func(variant int) (obs, obsTxt string) {
+		obs, obsTxt = "OWeird", "?"
 		phase := "Unmarshal"
 		defer func() {
 			if p := recover(); p != nil {
@@ -325,6 +335,15 @@ func runC11(d c11Desc) Case {
 			}
 		}()
 		res := resolver.New(tgt.Def)
+		var opts []unmarshaler.Option
+		switch variant {
+		case 1: // the definition carries no key; custom keys: a declining key of the same name, then the target
+			res = resolver.New(c11BareDef)
+			opts = []unmarshaler.Option{unmarshaler.WithCustomFields(c11DecoyKey, tgt.Key)}
+		case 2: // the definition carries the declining key; the target is a custom key
+			res = resolver.New(c11DecoyDef)
+			opts = []unmarshaler.Option{unmarshaler.WithCustomFields(tgt.Key)}
+		}
 		var ue unmarshaler.UnmarshaledError
 		var err error
 		if d.JSON {
@@ -334,10 +353,10 @@ func runC11(d c11Desc) Case {
 				return
 			}
 			doc := `{"message":"m","kind":"c11","fields":{"` + c11Field + `":` + txt + `}}`
-			ue, err = unmarshaler.NewJSON(res).Unmarshal([]byte(doc))
+			ue, err = unmarshaler.NewJSON(res, opts...).Unmarshal([]byte(doc))
 		} else {
 			pass := func(x *unmarshaler.DecodedData) (*unmarshaler.DecodedData, error) { return x, nil }
-			ue, err = unmarshaler.New(res, pass).Unmarshal(&unmarshaler.DecodedData{
+			ue, err = unmarshaler.New(res, pass, opts...).Unmarshal(&unmarshaler.DecodedData{
 				Message: "m", Kind: "c11", Fields: map[string]any{c11Field: val}})
 		}
 		if err != nil {
@@ -389,7 +408,19 @@ func runC11(d c11Desc) Case {
 		default:
 			obs, obsTxt = "ODeclined None", "declined and lost"
 		}
-	}()
+		return
+	}
+	obs, obsTxt := observe(0)
+	// the same pair with the target reached as a CUSTOM key behind a same-named key that declines
+	// every value (first among the custom keys / on the definition): the binding must be the same
+	if !strings.HasPrefix(obs, "OWeird") {
+		for _, variant := range []int{1, 2} {
+			if o2, t2 := observe(variant); o2 != obs {
+				obs, obsTxt = "OWeird", fmt.Sprintf("as a custom key (variant %d) the outcome is %q, as a definition key %q", variant, t2, obsTxt)
+				break
+			}
+		}
+	}
 
 	// classification
 	srcName, srcKind := "nil", ""
